@@ -1,0 +1,1 @@
+//! Hooks for property C07 (empty until needed).
